@@ -306,3 +306,53 @@ def uniquify_init(spec):
     used = {n for _, n in new_nodes}
     spec["ntypes"] = {k_: v for k_, v in spec["ntypes"].items() if k_ in used}
     return spec
+
+
+@st.composite
+def with_edge_templates(draw, spec, same_keys=None):
+    """turn some edges of a spec into edges through EdgeTemplates with one algebraic operator (m_e = f(s_e; g_e, c_e)); values
+    for g_e / c_e come from the operator, from the template's variations and from the edge attribute dictionaries.
+    (Used where the property names edge templates: C15 round trips, C14 histories; RefModel evaluates them.)"""
+    import copy
+    spec = copy.deepcopy(spec)
+    if not spec["edges"]:
+        return spec
+    n_ops = draw(st.integers(1, 2))
+    for k in range(n_ops):
+        ast, _ = draw(E.expr_strategy(["s_e", "g_e", "c_e"], max_depth=2, funcs=["tanh", "sigmoid", "sin"], allow_pow=False))
+        if "s_e" not in E.variables(ast):
+            ast = ["bin", "*", ["var", "s_e"], ast] if E.variables(ast) else ["bin", "*", ["var", "g_e"], ["var", "s_e"]]
+        vs = E.variables(ast)
+        spec["ops"][f"eop{k}"] = {"vars": [["s_e", "input", 0.0], ["m_e", "alg", 0.0]] +
+                                          [[v, "const", d] for v, d in (("g_e", 1.5), ("c_e", 0.8)) if v in vs],
+                                  "eqs": [["m_e", False, ast, 0]], "out": "m_e"}
+    val = st.sampled_from([0.7, 1.3, -0.4, 2.1, 0.25])
+    spec["etypes"] = {}
+    for k in range(draw(st.integers(1, 2))):
+        o = f"eop{draw(st.integers(0, n_ops - 1))}"
+        consts = [v[0] for v in spec["ops"][o]["vars"] if v[1] == "const"]
+        ov = {}
+        if consts and draw(st.booleans()):
+            ov = {o: {draw(st.sampled_from(consts)): draw(val)}}
+        spec["etypes"][f"et{k}"] = {"ops": [o], "ov": ov}
+    if same_keys is None:
+        same_keys = draw(st.booleans())
+    seen = set()
+    for e in spec["edges"]:
+        pair = (e.get("scope") or "", e["s"], e["t"])
+        if pair in seen or draw(st.integers(0, 2)) == 0:
+            seen.add(pair)
+            continue
+        seen.add(pair)
+        e["et"] = draw(st.sampled_from(sorted(spec["etypes"])))
+        o = spec["etypes"][e["et"]]["ops"][0]
+        e["ev"] = {}
+        for v in [v[0] for v in spec["ops"][o]["vars"] if v[1] == "const"]:
+            if same_keys or draw(st.integers(0, 2)) == 0:
+                e["ev"][f"{o}/{v}"] = draw(val)
+    used = {e["et"] for e in spec["edges"] if e.get("et")}
+    spec["etypes"] = {k: v for k, v in spec["etypes"].items() if k in used}
+    used_ops = {o for et in spec["etypes"].values() for o in et["ops"]}
+    for k in [o for o in spec["ops"] if o.startswith("eop") and o not in used_ops]:
+        del spec["ops"][k]
+    return spec
